@@ -1,48 +1,10 @@
-import RSocketModel.Basic
-import RSocketModel.StreamId
+import Driver.C13
+import Driver.C04
 /-!
 Line-protocol driver: one request per line on stdin, one answer per line on stdout.
 Only model files are imported (no proofs, no Mathlib), so this links as a native executable.
 -/
-open RSocketModel
-
 namespace Driver
-
-def parseNatList (s : String) : Option (List Nat) :=
-  if s == "-" then some [] else (s.splitOn ",").mapM String.toNat?
-
-def showNatList (l : List Nat) : String :=
-  if l.isEmpty then "-" else ",".intercalate (l.map toString)
-
-/-! ### C13 -/
-def parseSidOp (t : String) : Option StreamId.Op :=
-  if t == "a" then some .allocate
-  else if t == "o" then some .allocateOnly
-  else if t.startsWith "r" then (t.drop 1).toNat?.map .register
-  else if t.startsWith "f" then (t.drop 1).toNat?.map .finish
-  else if t.startsWith "q" then (t.drop 1).toNat?.map .query
-  else none
-
-def showSidOut : StreamId.Out → String
-  | .allocated id => s!"A{id}"
-  | .allocationFailure => "X"
-  | .registered => "R"
-  | .registerRejected => "E"
-  | .finished => "F"
-  | .available b => if b then "Q1" else "Q0"
-
-def cmdSid (args : List String) : String :=
-  match args with
-  | k :: cur :: act :: ops =>
-    match k.toNat?, cur.toNat?, parseNatList act, ops.mapM parseSidOp with
-    | some k, some cur, some act, some ops =>
-      let s0 : StreamId.State := { k := k, cur := cur, active := act }
-      let outs := (StreamId.run s0 ops).map (fun so => showSidOut so.2)
-      let sf := StreamId.final s0 ops
-      let actF := (sf.active.toArray.qsort (· < ·)).toList
-      s!"{" ".intercalate outs} | cur={sf.cur} active={showNatList actF}"
-    | _, _, _, _ => "bad-op"
-  | _ => "bad-op"
 
 def dispatch (line : String) : String :=
   match (line.trimAscii.toString.splitOn " ").filter (· ≠ "") with
@@ -51,6 +13,8 @@ def dispatch (line : String) : String :=
     match cmd with
     | "ping" => "pong"
     | "sid" => cmdSid args
+    | "drain" => cmdDrain args
+    | "msg" => cmdMsg args
     | _ => "bad-op"
 
 partial def loop (h : IO.FS.Stream) (out : IO.FS.Stream) : IO Unit := do
